@@ -7,6 +7,9 @@ import Modbus.Model.Rtu
 import Modbus.Model.Tcp
 import Modbus.Model.Receiver
 import Modbus.Model.Fast
+import Modbus.Spec.Wire
+import Modbus.Spec.Crc
+import Modbus.Spec.Lengths
 /-
 Line-protocol driver for the model (DESIGN.md §3.1).  One operation per input line, one
 canonical result line per operation.  Imports the model and `Model/Fast.lean` (linear implementations PROVED equal to the model's
@@ -390,6 +393,48 @@ def recvStr {F} (p : F → String) (scanf : Bytes → Res (Option (F × Loc))) (
 def parseChunks (s : String) : Option (List Bytes) :=
   if s == "" then some [] else (s.splitOn ",").mapM parseHex
 
+/-! ### the independent specification (Spec/*.lean), for the tie with the harness's Rust reference -/
+
+def fcByte (s : String) : Option UInt8 :=
+  match s.toList with
+  | _ :: rest => (parseHexChars rest []).bind fun b => b.head?
+  | _ => none
+
+def reqMeaningOf : List String → Option Spec.ReqMeaning
+  | "RC" :: a :: q :: _ => do pure (.readCoils (← parseU16 a) (← parseU16 q))
+  | "RDI" :: a :: q :: _ => do pure (.readDiscreteInputs (← parseU16 a) (← parseU16 q))
+  | "RHR" :: a :: q :: _ => do pure (.readHoldingRegisters (← parseU16 a) (← parseU16 q))
+  | "RIR" :: a :: q :: _ => do pure (.readInputRegisters (← parseU16 a) (← parseU16 q))
+  | "WSR" :: a :: q :: _ => do pure (.writeSingleRegister (← parseU16 a) (← parseU16 q))
+  | "WSC" :: a :: c :: _ => do pure (.writeSingleCoil (← parseU16 a) (c == "1"))
+  | "WMC" :: a :: b :: _ => do pure (.writeMultipleCoils (← parseU16 a) (← parseBits b))
+  | "WMR" :: a :: w :: _ => do pure (.writeMultipleRegisters (← parseU16 a) (← parseWords w))
+  | "RWM" :: ra :: rq :: wa :: w :: _ => do
+      pure (.readWriteMultipleRegisters (← parseU16 ra) (← parseU16 rq) (← parseU16 wa) (← parseWords w))
+  | "CUS" :: fc :: h :: _ => do pure (.custom (← fcByte fc) (← parseHex h))
+  | _ => none
+
+def rspBytesOf : List String → Option Bytes
+  | "RC" :: b :: _ => do pure (Spec.rspBytes (.readCoils (← parseBits b)))
+  | "RDI" :: b :: _ => do pure (Spec.rspBytes (.readDiscreteInputs (← parseBits b)))
+  | "RHR" :: w :: _ => do pure (Spec.rspBytes (.readHoldingRegisters (← parseWords w)))
+  | "RIR" :: w :: _ => do pure (Spec.rspBytes (.readInputRegisters (← parseWords w)))
+  | "RWM" :: w :: _ => do pure (Spec.rspBytes (.readWriteMultipleRegisters (← parseWords w)))
+  | "WSC" :: a :: _ => do pure (Spec.rspBytes (.writeSingleCoil (← parseU16 a)))
+  | "WSR" :: a :: q :: _ => do pure (Spec.rspBytes (.writeSingleRegister (← parseU16 a) (← parseU16 q)))
+  | "WMC" :: a :: q :: _ => do pure (Spec.rspBytes (.writeMultipleCoils (← parseU16 a) (← parseU16 q)))
+  | "WMR" :: a :: q :: _ => do pure (Spec.rspBytes (.writeMultipleRegisters (← parseU16 a) (← parseU16 q)))
+  | "CUS" :: fc :: h :: _ => do pure (Spec.rspBytes (.custom (← fcByte fc) (← parseHex h)))
+  | "EXC" :: fc :: k :: _ => do
+      let e ← excOfIdx (← k.toNat?)
+      pure (Spec.excBytes (← fcByte fc) e.val)
+  | _ => none
+
+def predStr : Spec.Pred → String
+  | .len n => s!"SOME {n}"
+  | .incomplete => "NONE"
+  | .reject => "ERR"
+
 /-! ### dispatch -/
 
 def gets {α} (idxs : List Nat) (g : Nat → String) (_ : α) : String := ",".intercalate (idxs.map g)
@@ -495,6 +540,16 @@ def step (toks : List String) : String :=
     | .val v _ => s!"{fcName v.fc} {v.fc.value}" | .specErr => "SPECERR" | .bad => "BADOP"
   | "fcof" :: "rsp" :: rest => match rspSpec rest with
     | .val v _ => s!"{fcName v.fc} {v.fc.value}" | .specErr => "SPECERR" | .bad => "BADOP"
+  | "specreq" :: rest => match reqMeaningOf rest with
+    | some m => hexOf (Spec.reqBytes m) | none => "NA"
+  | "specrsp" :: rest => match rspBytesOf rest with
+    | some b => hexOf b | none => "NA"
+  | ["speccrc", h] => match parseHex h with
+    | some b => hexOf (Spec.crcWire b) | none => "BADOP"
+  | ["speclen", d, hdr, h] => match hdr.toNat?, parseHex h with
+    | some k, some b => predStr (Spec.predict k (if d == "req" then .req else .rsp) b) | _, _ => "BADOP"
+  | ["specpack", bits] => match parseBits bits with
+    | some bs => hexOf (Spec.packBits bs) | none => "BADOP"
   | ["recv", tr, d, cs] => match parseChunks cs with
     | some chunks =>
       if tr == "rtu" then recvStr rtuFrameStr (if d == "req" then Rtu.decodeReq else Rtu.decodeRsp) chunks
